@@ -37,6 +37,7 @@ func runC01(t *testing.T, seed uint64, m *Mask) *Report {
 	opt.LogLevel = []string{"OFF", "OFF", "TRACE"}[r.Intn(3)]
 	opt.ReaderSize = []int{16, 64, 1024, 4096}[r.Intn(4)]
 	opt.Mapper = []string{"http", "http", "rpc"}[r.Intn(3)]
+	slowP := []float64{0, 0, 0.2, 0.6}[r.Intn(4)]
 	nPeers := 2 + r.Intn(2)
 	nConns := 1 + r.Intn(4)
 	conns := make([]*c01Conn, nConns)
@@ -92,7 +93,7 @@ func runC01(t *testing.T, seed uint64, m *Mask) *Report {
 		routes := make([]world.Routes, nPeers)
 		for i := range peers {
 			rec := &world.Recorder{PName: fmt.Sprintf("rec%d", i), Env: e, Stages: map[string]bool{"PostDisconnect": true}}
-			peers[i] = e.NewPeer(fmt.Sprintf("p%d", i), erpc.PeerConfig{}, rec)
+			peers[i] = e.NewPeer(fmt.Sprintf("p%d", i), erpc.PeerConfig{}, rec, &world.Slow{Env: e, P: slowP})
 			routes[i] = e.RegisterStd(peers[i])
 		}
 		// sessions
@@ -173,9 +174,9 @@ func keys(m map[string]bool) []string {
 func checkC01(e *world.Env, conns []*c01Conn, ops []*world.Op) {
 	// handler log by tag
 	type seen struct {
-		n    int
-		ev   world.HandlerEvent
-		all  []string
+		n   int
+		ev  world.HandlerEvent
+		all []string
 	}
 	byTag := map[string]*seen{}
 	for _, ev := range e.Obs.Handlers {
